@@ -1,0 +1,519 @@
+//go:build verif
+
+package nfsv4
+
+import (
+	"encoding/hex"
+	"fmt"
+	"sort"
+	"strings"
+	"time"
+
+	"github.com/buildbarn/bb-remote-execution/pkg/filesystem/virtual"
+	"github.com/buildbarn/go-xdr/pkg/protocols/nfsv4"
+)
+
+// Read-only verification hooks of harness "nfs" (properties C18, C19,
+// C20). Nothing in this file modifies server state, and nothing in
+// this file acquires locks: the model checker calls these functions
+// from its controller while all threads of the execution are parked
+// (possibly inside critical sections), or from purely sequential
+// drivers.
+
+// VerifNFSState is a canonical rendering of the state of an NFSv4.0
+// or NFSv4.1 program object.
+type VerifNFSState struct {
+	// Counts of the records held by the server.
+	Counts map[string]int
+	// Dump is a canonical, address free and random-identifier free
+	// rendering of all state.
+	Dump string
+	// Names maps random identifiers handed out by the server
+	// ("cid:<hex>", "sid:<hex>", "sess:<hex>") to structural
+	// names, so that client-side bookkeeping can be rendered
+	// canonically as well.
+	Names map[string]string
+}
+
+func verifNFSAge(now, then time.Time, lease time.Duration) string {
+	d := now.Sub(then)
+	if d > lease {
+		return "expired"
+	}
+	return d.String()
+}
+
+func verifNFSResponse(r interface{}) string {
+	if r == nil {
+		return "-"
+	}
+	s := fmt.Sprintf("%T", r)
+	if i := strings.LastIndexByte(s, '.'); i >= 0 {
+		s = s[i+1:]
+	}
+	if m, ok := r.(responseMessage); ok {
+		s += fmt.Sprintf("/%d", m.GetStatus())
+	}
+	return s
+}
+
+func verifNFSShare(sc *shareCount) string {
+	return fmt.Sprintf("r%d,w%d", int(sc.readers), int(sc.writers))
+}
+
+// VerifNFSInspect renders the state of a program created by
+// NewNFS40Program() or NewNFS41Program(). It returns nil for other
+// implementations of Nfs4Program.
+func VerifNFSInspect(program nfsv4.Nfs4Program, now time.Time, withDump bool) *VerifNFSState {
+	switch p := program.(type) {
+	case *nfs40Program:
+		return p.verifNFSInspect(now, withDump)
+	case *nfs41Program:
+		return p.verifNFSInspect(now, withDump)
+	default:
+		return nil
+	}
+}
+
+func (p *nfs40Program) verifNFSInspect(now time.Time, withDump bool) *VerifNFSState {
+	st := &VerifNFSState{Counts: map[string]int{}, Names: map[string]string{}}
+	var b strings.Builder
+	pf := func(format string, args ...interface{}) {
+		if withDump {
+			fmt.Fprintf(&b, format, args...)
+		}
+	}
+	lease := p.enforcedLeaseTime
+
+	confirmationName := func(ccs *clientConfirmationState) string {
+		return fmt.Sprintf("%s.v%s", ccs.client.longID, strings.TrimRight(hex.EncodeToString(ccs.clientVerifier[:]), "0"))
+	}
+	sidKey := func(sid nfs40RegularStateID) string {
+		ext := p.externalizeStateID(sid)
+		return "sid:" + hex.EncodeToString(ext.Other[:])
+	}
+
+	pf("V40 clock-now=%s\n", now.Sub(p.now))
+	longIDs := make([]string, 0, len(p.clientsByLongID))
+	for k := range p.clientsByLongID {
+		longIDs = append(longIDs, k)
+	}
+	sort.Strings(longIDs)
+	st.Counts["clients"] = len(longIDs)
+	seenOOFS := map[*nfs40OpenOwnerFileState]bool{}
+	seenLOFS := map[*nfs40LockOwnerFileState]bool{}
+	for _, longID := range longIDs {
+		client := p.clientsByLongID[longID]
+		pf("client %q\n", longID)
+		var confs []*clientConfirmationState
+		for _, ccs := range client.confirmationsByClientVerifier {
+			confs = append(confs, ccs)
+		}
+		sort.Slice(confs, func(i, j int) bool { return string(confs[i].clientVerifier[:]) < string(confs[j].clientVerifier[:]) })
+		for _, ccs := range confs {
+			st.Counts["confirmations"]++
+			st.Counts["held"] += ccs.holdCount
+			name := confirmationName(ccs)
+			st.Names[fmt.Sprintf("cid:%016x", ccs.key.shortClientID)] = name
+			age := "held"
+			if ccs.holdCount == 0 {
+				age = verifNFSAge(now, ccs.lastSeen, lease)
+				if ccs.nextIdle == nil || ccs.previousIdle == nil {
+					age += "!notidle"
+				}
+			} else if ccs.nextIdle != nil {
+				age += "!idle"
+			}
+			if p.clientConfirmationsByKey[ccs.key] != ccs || p.clientConfirmationsByShortID[ccs.key.shortClientID] != ccs {
+				age += "!maps"
+			}
+			pf(" conf %s hold=%d age=%s\n", name, ccs.holdCount, age)
+		}
+		cc := client.confirmed
+		if cc == nil {
+			continue
+		}
+		st.Counts["confirmed_clients"]++
+		pf(" confirmed %s\n", confirmationName(cc.confirmation))
+		st.Names[fmt.Sprintf("confirmed:%016x", cc.confirmation.key.shortClientID)] = confirmationName(cc.confirmation)
+		cname := confirmationName(cc.confirmation)
+		ooKeys := make([]string, 0, len(cc.openOwners))
+		for k := range cc.openOwners {
+			ooKeys = append(ooKeys, k)
+		}
+		sort.Strings(ooKeys)
+		for _, k := range ooKeys {
+			oos := cc.openOwners[k]
+			st.Counts["open_owners"]++
+			unused := "-"
+			if oos.nextUnused != nil {
+				unused = verifNFSAge(now, oos.lastUsed, lease)
+				st.Counts["unused_open_owners"]++
+			}
+			txn := ""
+			if oos.currentTransactionWait != nil {
+				txn = " txn"
+				st.Counts["transactions"]++
+			}
+			last := "-"
+			if lr := oos.lastResponse; lr != nil {
+				last = verifNFSResponse(lr.response)
+				if lr.closedFile != nil {
+					last += "+closed:" + string(lr.closedFile.openedFile.GetHandle())
+				}
+			}
+			pf("  oo %q confirmed=%v lastSeq=%d last=%s unused=%s%s\n", k, oos.confirmed, oos.lastSeqID, last, unused, txn)
+			hKeys := make([]string, 0, len(oos.filesByHandle))
+			for h := range oos.filesByHandle {
+				hKeys = append(hKeys, h)
+			}
+			sort.Strings(hKeys)
+			for _, h := range hKeys {
+				oofs := oos.filesByHandle[h]
+				seenOOFS[oofs] = true
+				st.Counts["open_owner_files"]++
+				name := fmt.Sprintf("%s/%s/%s", cname, k, h)
+				st.Names[sidKey(oofs.stateID)] = name
+				bad := ""
+				if p.openOwnerFilesByOther[oofs.stateID.other] != oofs {
+					bad = "!map"
+				}
+				pf("   file %q share=%d seq=%d rc=%s%s\n", h, oofs.shareAccess, oofs.stateID.seqID, verifNFSShare(&oofs.shareCount), bad)
+				var lofss []*nfs40LockOwnerFileState
+				for _, lofs := range oofs.lockOwnerFiles {
+					lofss = append(lofss, lofs)
+				}
+				sort.Slice(lofss, func(i, j int) bool {
+					return string(lofss[i].lockOwner.owner.Owner) < string(lofss[j].lockOwner.owner.Owner)
+				})
+				for _, lofs := range lofss {
+					seenLOFS[lofs] = true
+					st.Counts["lock_owner_files"]++
+					lname := name + "/" + string(lofs.lockOwner.owner.Owner)
+					st.Names[sidKey(lofs.stateID)] = lname
+					bad := ""
+					if p.lockOwnerFilesByOther[lofs.stateID.other] != lofs {
+						bad = "!map"
+					}
+					if lofs.lockOwnerIndex < 0 || lofs.lockOwnerIndex >= len(lofs.lockOwner.files) || lofs.lockOwner.files[lofs.lockOwnerIndex] != lofs {
+						bad += "!index"
+					}
+					pf("    lof %q share=%d seq=%d locks=%d%s\n", string(lofs.lockOwner.owner.Owner), lofs.shareAccess, lofs.stateID.seqID, lofs.lockCount, bad)
+				}
+			}
+		}
+		loKeys := make([]string, 0, len(cc.lockOwners))
+		for k := range cc.lockOwners {
+			loKeys = append(loKeys, k)
+		}
+		sort.Strings(loKeys)
+		for _, k := range loKeys {
+			los := cc.lockOwners[k]
+			st.Counts["lock_owners"]++
+			pf("  lo %q lastSeq=%d last=%s files=%d\n", k, los.lastSeqID, verifNFSResponse(los.lastResponse), len(los.files))
+		}
+	}
+	// Records that are only reachable through the global maps.
+	st.Counts["confirmations_by_key"] = len(p.clientConfirmationsByKey)
+	st.Counts["confirmations_by_short_id"] = len(p.clientConfirmationsByShortID)
+	st.Counts["open_owner_files_by_other"] = len(p.openOwnerFilesByOther)
+	st.Counts["lock_owner_files_by_other"] = len(p.lockOwnerFilesByOther)
+	orphans := 0
+	for _, oofs := range p.openOwnerFilesByOther {
+		if !seenOOFS[oofs] {
+			orphans++
+		}
+	}
+	for _, lofs := range p.lockOwnerFilesByOther {
+		if !seenLOFS[lofs] {
+			orphans++
+		}
+	}
+	if orphans != 0 {
+		pf("!orphans=%d\n", orphans)
+	}
+	// Order of the idle and unused lists (these determine the
+	// order of expiry).
+	b.WriteString("idle:")
+	n := 0
+	for ccs := p.idleClientConfirmations.nextIdle; ccs != nil && ccs != &p.idleClientConfirmations && n < 1000; ccs = ccs.nextIdle {
+		b.WriteString(" " + confirmationName(ccs))
+		n++
+	}
+	st.Counts["idle"] = n
+	b.WriteString("\nunused:")
+	n = 0
+	for oos := p.unusedOpenOwners.nextUnused; oos != nil && oos != &p.unusedOpenOwners && n < 1000; oos = oos.nextUnused {
+		pf(" %s/%s", confirmationName(oos.confirmedClient.confirmation), oos.key)
+		n++
+	}
+	b.WriteString("\n")
+	st.Dump = b.String()
+	return st
+}
+
+// VerifNFS40OpenOwner reports whether the NFSv4.0 server currently
+// knows the given open-owner of the confirmed client with the given
+// short client ID, and whether it is confirmed.
+func VerifNFS40OpenOwner(program nfsv4.Nfs4Program, shortClientID uint64, owner []byte) (exists, confirmed bool) {
+	p, ok := program.(*nfs40Program)
+	if !ok {
+		return false, false
+	}
+	ccs, ok := p.clientConfirmationsByShortID[shortClientID]
+	if !ok || ccs.client.confirmed == nil || ccs.client.confirmed.confirmation != ccs {
+		return false, false
+	}
+	oos, ok := ccs.client.confirmed.openOwners[string(owner)]
+	if !ok {
+		return false, false
+	}
+	return true, oos.confirmed
+}
+
+func verifNFSResultShape(r compoundResult) string {
+	var ops []string
+	for _, res := range r.resArray {
+		ops = append(ops, fmt.Sprint(uint32(res.GetResop())))
+	}
+	return fmt.Sprintf("%d[%s]", r.status, strings.Join(ops, ","))
+}
+
+func (p *nfs41Program) verifNFSInspect(now time.Time, withDump bool) *VerifNFSState {
+	st := &VerifNFSState{Counts: map[string]int{}, Names: map[string]string{}}
+	var b strings.Builder
+	pf := func(format string, args ...interface{}) {
+		if withDump {
+			fmt.Fprintf(&b, format, args...)
+		}
+	}
+	lease := p.enforcedLeaseTime
+
+	incarnationName := func(cis *clientIncarnationState) string {
+		return fmt.Sprintf("%s.v%s", cis.client.ownerID, strings.TrimRight(hex.EncodeToString(cis.clientVerifier[:]), "0"))
+	}
+
+	pf("V41 clock-now=%s\n", now.Sub(p.now))
+	ownerIDs := make([]string, 0, len(p.clientsByOwnerID))
+	for k := range p.clientsByOwnerID {
+		ownerIDs = append(ownerIDs, k)
+	}
+	sort.Strings(ownerIDs)
+	st.Counts["clients"] = len(ownerIDs)
+	sessionsSeen := 0
+	for _, ownerID := range ownerIDs {
+		client := p.clientsByOwnerID[ownerID]
+		confirmed := "-"
+		if client.confirmedIncarnation != nil {
+			confirmed = incarnationName(client.confirmedIncarnation)
+			st.Counts["confirmed_clients"]++
+			st.Names[fmt.Sprintf("confirmed:%016x", client.confirmedIncarnation.clientID)] = confirmed
+		}
+		pf("client %q confirmed=%s\n", ownerID, confirmed)
+		var ciss []*clientIncarnationState
+		for _, cis := range client.incarnationsByClientVerifier {
+			ciss = append(ciss, cis)
+		}
+		sort.Slice(ciss, func(i, j int) bool { return string(ciss[i].clientVerifier[:]) < string(ciss[j].clientVerifier[:]) })
+		for _, cis := range ciss {
+			st.Counts["incarnations"]++
+			st.Counts["held"] += cis.holdCount
+			name := incarnationName(cis)
+			cidHex := fmt.Sprintf("%016x", cis.clientID)
+			st.Names["cid:"+cidHex] = name
+			age := "held"
+			if cis.holdCount == 0 {
+				age = verifNFSAge(now, cis.lastSeen, lease)
+				if cis.nextIdle == nil || cis.previousIdle == nil {
+					age += "!notidle"
+				}
+			} else if cis.nextIdle != nil {
+				age += "!idle"
+			}
+			if p.clientIncarnationsByClientID[cis.clientID] != cis {
+				age += "!map"
+			}
+			pf(" inc %s hold=%d age=%s csseq=%d cs=%s\n", name, cis.holdCount, age, cis.lastSequenceID, verifNFSResponseStatus(cis.lastCreateSessionResponse))
+			n := 0
+			for ss := cis.sessions.next; ss != nil && ss != &cis.sessions && n < 1000; ss = ss.next {
+				sname := fmt.Sprintf("%s/s%d", name, n)
+				st.Names["sess:"+hex.EncodeToString(ss.sessionID[:])] = sname
+				bad := ""
+				if p.sessionsBySessionID[ss.sessionID] != ss {
+					bad = "!map"
+				}
+				pf("  session %d%s:", n, bad)
+				for i := range ss.slots {
+					slot := &ss.slots[i]
+					w := "idle"
+					if slot.currentSequenceWaiters != nil {
+						w = fmt.Sprintf("busy+%d", len(slot.currentSequenceWaiters))
+						st.Counts["busy_slots"]++
+					}
+					pf(" slot%d(seq=%d last=%s %s)", i, slot.lastSequenceID, verifNFSResultShape(slot.lastResult), w)
+				}
+				b.WriteString("\n")
+				n++
+				sessionsSeen++
+			}
+			ooKeys := make([]string, 0, len(cis.openOwnersByOwner))
+			for k := range cis.openOwnersByOwner {
+				ooKeys = append(ooKeys, k)
+			}
+			sort.Strings(ooKeys)
+			seenOOFS := map[*nfs41OpenOwnerFileState]bool{}
+			seenLOFS := map[*nfs41LockOwnerFileState]bool{}
+			losIdentity := map[*nfs41LockOwnerState]int{}
+			for _, k := range ooKeys {
+				oos := cis.openOwnersByOwner[k]
+				st.Counts["open_owners"]++
+				pf("  oo %q\n", k)
+				hKeys := make([]string, 0, len(oos.filesByHandle))
+				for h := range oos.filesByHandle {
+					hKeys = append(hKeys, h)
+				}
+				sort.Strings(hKeys)
+				for _, h := range hKeys {
+					oofs := oos.filesByHandle[h]
+					seenOOFS[oofs] = true
+					st.Counts["open_owner_files"]++
+					fname := fmt.Sprintf("%s/%s/%s", name, k, h)
+					ext := oofs.stateID.externalize()
+					st.Names["sid:"+cidHex+":"+hex.EncodeToString(ext.Other[:])] = fname
+					bad := ""
+					if cis.openOwnerFilesByOther[oofs.stateID.other] != oofs {
+						bad = "!map"
+					}
+					pf("   file %q share=%d seq=%d rc=%s%s\n", h, oofs.shareAccess, oofs.stateID.seqID, verifNFSShare(&oofs.shareCount), bad)
+					var lofss []*nfs41LockOwnerFileState
+					for _, lofs := range oofs.lockOwnerFiles {
+						lofss = append(lofss, lofs)
+					}
+					sort.Slice(lofss, func(i, j int) bool {
+						a, b := lofss[i], lofss[j]
+						if string(a.lockOwner.owner.Owner) != string(b.lockOwner.owner.Owner) {
+							return string(a.lockOwner.owner.Owner) < string(b.lockOwner.owner.Owner)
+						}
+						return a.stateID.other < b.stateID.other
+					})
+					for _, lofs := range lofss {
+						seenLOFS[lofs] = true
+						st.Counts["lock_owner_files"]++
+						id, ok := losIdentity[lofs.lockOwner]
+						if !ok {
+							id = len(losIdentity)
+							losIdentity[lofs.lockOwner] = id
+						}
+						registered := cis.lockOwnersByOwner[string(lofs.lockOwner.owner.Owner)] == lofs.lockOwner
+						lext := lofs.stateID.externalize()
+						st.Names["sid:"+cidHex+":"+hex.EncodeToString(lext.Other[:])] = fmt.Sprintf("%s/%s#%d", fname, string(lofs.lockOwner.owner.Owner), id)
+						bad := ""
+						if cis.lockOwnerFilesByOther[lofs.stateID.other] != lofs {
+							bad = "!map"
+						}
+						pf("    lof %q obj=%d registered=%v files=%d share=%d seq=%d locks=%d%s\n", string(lofs.lockOwner.owner.Owner), id, registered, int(lofs.lockOwner.fileCount), lofs.shareAccess, lofs.stateID.seqID, lofs.lockCount, bad)
+					}
+				}
+			}
+			loKeys := make([]string, 0, len(cis.lockOwnersByOwner))
+			for k := range cis.lockOwnersByOwner {
+				loKeys = append(loKeys, k)
+			}
+			sort.Strings(loKeys)
+			for _, k := range loKeys {
+				st.Counts["lock_owners"]++
+				pf("  lo %q files=%d\n", k, int(cis.lockOwnersByOwner[k].fileCount))
+			}
+			st.Counts["lock_owner_objects"] += len(losIdentity)
+			st.Counts["open_owner_files_by_other"] += len(cis.openOwnerFilesByOther)
+			st.Counts["lock_owner_files_by_other"] += len(cis.lockOwnerFilesByOther)
+			orphans := 0
+			for _, oofs := range cis.openOwnerFilesByOther {
+				if !seenOOFS[oofs] {
+					orphans++
+				}
+			}
+			for _, lofs := range cis.lockOwnerFilesByOther {
+				if !seenLOFS[lofs] {
+					orphans++
+				}
+			}
+			if orphans != 0 {
+				pf("  !orphans=%d\n", orphans)
+			}
+		}
+	}
+	st.Counts["sessions"] = len(p.sessionsBySessionID)
+	st.Counts["incarnations_by_client_id"] = len(p.clientIncarnationsByClientID)
+	if sessionsSeen != len(p.sessionsBySessionID) {
+		pf("!sessions-unreachable=%d\n", len(p.sessionsBySessionID)-sessionsSeen)
+	}
+	b.WriteString("idle:")
+	n := 0
+	for cis := p.idleClientIncarnations.nextIdle; cis != nil && cis != &p.idleClientIncarnations && n < 1000; cis = cis.nextIdle {
+		b.WriteString(" " + incarnationName(cis))
+		n++
+	}
+	st.Counts["idle"] = n
+	b.WriteString("\n")
+	st.Dump = b.String()
+	return st
+}
+
+func verifNFSResponseStatus(r nfsv4.CreateSession4res) string {
+	if r == nil {
+		return "-"
+	}
+	return fmt.Sprint(uint32(r.GetCsrStatus()))
+}
+
+// VerifNFSLock is one entry of the byte-range lock table of an opened
+// file.
+type VerifNFSLock struct {
+	Clientid uint64
+	Owner    string
+	// Identity distinguishes lock-owner objects: entries of one
+	// file carrying the same Identity are owned by the same
+	// object. Numbered in order of first appearance.
+	Identity int
+	Start    uint64
+	End      uint64
+	Shared   bool
+}
+
+// VerifNFSOpenedFile is the pool's record of one file handle.
+type VerifNFSOpenedFile struct {
+	Handle   string
+	UseCount int
+	Locks    []VerifNFSLock
+}
+
+// VerifNFSPool returns the contents of the pool, sorted by handle.
+func (ofp *OpenedFilesPool) VerifNFSPool() []VerifNFSOpenedFile {
+	handles := make([]string, 0, len(ofp.filesByHandle))
+	for h := range ofp.filesByHandle {
+		handles = append(handles, h)
+	}
+	sort.Strings(handles)
+	var out []VerifNFSOpenedFile
+	for _, h := range handles {
+		of := ofp.filesByHandle[h]
+		f := VerifNFSOpenedFile{Handle: h, UseCount: int(of.useCount)}
+		identities := map[*nfsv4.LockOwner4]int{}
+		for _, l := range of.locks.VerifNFSEntries() {
+			id, ok := identities[l.Owner]
+			if !ok {
+				id = len(identities)
+				identities[l.Owner] = id
+			}
+			e := VerifNFSLock{Identity: id, Start: l.Start, End: l.End, Shared: l.Type == virtual.ByteRangeLockTypeLockedShared}
+			if l.Owner != nil {
+				e.Clientid = l.Owner.Clientid
+				e.Owner = string(l.Owner.Owner)
+			}
+			f.Locks = append(f.Locks, e)
+		}
+		out = append(out, f)
+	}
+	return out
+}
